@@ -98,14 +98,15 @@ Lemma wit_rebuild :
   all_allowed wchain wmeth 100 (fail_after wchain wmeth 100 s_built (OReg 4)) [0; 1; 2] = false.
 Proof. vm_compute. repeat split; reflexivity. Qed.
 
-(* KF-20: a(int) -> call_next, b(object); built through a str call; the int resolution is interrupted after its first
-   write (step 4): the first-rank entry is there, the continuation entry is not; call_next reports "no method" for ever *)
+(* KF-20 (repaired in /repo 7cfed94, the model follows): a(int) -> call_next, b(object); built through a str call; the int
+   resolution interrupted after ANY number of steps -- step 4 is inside the write loop, after its first write -- leaves a
+   state in which every probe returns the complete-table outcome: the first-rank entry is written last *)
 Definition s_built1 := fst (run_ops wchain wmeth 100 (init [0; 1]) [OCall 1]).
-Lemma wit_resolve :
+Lemma wit_resolve_fixed :
   in_write_window (snd (run_alone wchain wmeth 4 s_built1 (start (OCall 0)))) = true /\
-  WP (fail_after wchain wmeth 4 s_built1 (OCall 0)) [0; 0] = [Some ([0], RErr ENoMethod); Some ([0], RErr ENoMethod)] /\
-  fresh_outcome wchain wmeth [0; 1] 0 = ([0; 1], RRet) /\
-  all_allowed wchain wmeth 100 (fail_after wchain wmeth 4 s_built1 (OCall 0)) [0; 0] = false.
+  l_pc (snd (run_alone wchain wmeth 4 s_built1 (start (OCall 0)))) = PWrite 0 0 None true [WDict (0, 0) 0] /\
+  WP (fail_after wchain wmeth 4 s_built1 (OCall 0)) [0; 0] = [Some ([0; 1], RRet); Some ([0; 1], RRet)] /\
+  forallb (fun n => all_allowed wchain wmeth 100 (fail_after wchain wmeth n s_built1 (OCall 0)) [0; 1; 2; 0]) (seq 0 12) = true.
 Proof. vm_compute. repeat split; reflexivity. Qed.
 
 (* KF-45: interrupt between recording a new method and rebuilding: the method is registered but never dispatched to *)
@@ -144,12 +145,12 @@ Lemma wit_build_race :
   spec_call wchain wmeth [0; 1] 0 = ([0; 1], RRet).
 Proof. vm_compute. repeat split; reflexivity. Qed.
 
-(* KF-20's window seen by another thread: thread 0 resolves int and is pre-empted after its first write; thread 1 hits the
-   first-rank entry, runs a, and call_next finds no continuation entry *)
-Definition sch_chain := [0; 0; 0; 0; 1; 1; 1; 1; 1; 1].
-Lemma wit_chain_race :
-  nth 1 (map result_of (snd (run_schedule wchain wmeth s_built1 [start (OCall 0); start (OCall 0)] sch_chain))) None
-    = Some ([0], RErr ENoMethod) /\
+(* the former KF-20 window seen by another thread: thread 0 resolves int and is pre-empted after its first write (now the
+   continuation entry); thread 1 misses the plain key, resolves itself, and both return the complete-table outcome *)
+Definition sch_chain := [0; 0; 0; 0] ++ repeat 1 12 ++ repeat 0 12.
+Lemma wit_chain_window :
+  map result_of (snd (run_schedule wchain wmeth s_built1 [start (OCall 0); start (OCall 0)] sch_chain))
+    = [Some ([0; 1], RRet); Some ([0; 1], RRet)] /\
   all_ok wmeth (s_defs s_built1) = true /\ spec_call wchain wmeth (s_defs s_built1) 0 = ([0; 1], RRet).
 Proof. vm_compute. repeat split; reflexivity. Qed.
 
@@ -162,11 +163,13 @@ Qed.
 
 (* ---- non-vacuity of the proved parts ---- *)
 Example partial_call_inhabited :
-  (* first build, failure at the swap step (not yet executed): a safe point; the resolution window at step 4 is not *)
+  (* first build, failure at the swap step (not yet executed): a safe point; so is every point of a resolution; step 8 of
+     the first build (inside the fill loop) is not *)
   safe_point (snd (run_alone wchain wmeth 4 (init [0; 1; 2]) (start (OCall 0)))) = true /\
   WP (fail_after wchain wmeth 4 (init [0; 1; 2]) (OCall 0)) [0; 1; 2] = map Some (map (spec_call wchain wmeth [0; 1; 2]) [0; 1; 2]) /\
   safe_point (snd (run_alone wchain wmeth 3 s_built1 (start (OCall 0)))) = true /\
-  safe_point (snd (run_alone wchain wmeth 4 s_built1 (start (OCall 0)))) = false /\
+  safe_point (snd (run_alone wchain wmeth 4 s_built1 (start (OCall 0)))) = true /\
+  safe_point (snd (run_alone wchain wmeth 8 (init [0; 1; 2]) (start (OCall 0)))) = false /\
   safe_point (snd (run_alone wchain wmeth 5 s_built1 (start (OCall 0)))) = true /\
   spec_call wchain wmeth [0; 1; 2] 0 = ([0; 1], RRet).
 Proof. vm_compute. repeat split; reflexivity. Qed.
@@ -178,10 +181,10 @@ Example warm_inhabited :
     = [Some ([0; 1], RRet); Some ([2], RRet); Some ([0; 1], RRet)].
 Proof. vm_compute. repeat split; reflexivity. Qed.
 
-(* the proved domain is exactly the complement of the two windows *)
-Lemma safe_point_complement : forall l, safe_point l = negb (in_fill_window l) && negb (in_write_window l).
+(* the proved domain is exactly the complement of KF-19's window *)
+Lemma safe_point_complement : forall l, safe_point l = negb (in_fill_window l).
 Proof.
-  intros [p tr]. unfold safe_point, in_fill_window, in_write_window, in_compile, before_swap; cbn.
+  intros [p tr]. unfold safe_point, in_fill_window, in_compile, before_swap; cbn.
   destruct p as [o| |c a|k|t k cl|t k cl st ws|t k cl|h ob k|h ob k|t h ob k|t h ob k|r]; cbn; auto;
-    try (destruct c; reflexivity); try (destruct st, ws; reflexivity).
+    try (destruct c; reflexivity).
 Qed.
